@@ -168,7 +168,7 @@ func (e *c20Env) leafCert(name string) (string, error) {
 }
 
 func c20Setup(root string) (*c20Env, error) {
-	e := &c20Env{root: root, proj: filepath.Join(root, "proj"), meta: filepath.Join(root, "meta"), keys: filepath.Join(root, "keys"), final: filepath.Join(root, "final")}
+	e := &c20Env{root: root, proj: filepath.Join(root, "pro,j"), meta: filepath.Join(root, "meta"), keys: filepath.Join(root, "keys"), final: filepath.Join(root, "final")}
 	for _, d := range []string{e.proj, e.meta, e.keys} {
 		if err := os.MkdirAll(d, 0o755); err != nil {
 			return nil, err
@@ -217,9 +217,16 @@ func c20Run(c c20Case, r *hx.Rec) error {
 	if err != nil {
 		return fmt.Errorf("harness: %v", err)
 	}
-	metaDir := e.meta
+	metaDir, metaArg := e.meta, e.meta
 	if c.MetaInProject {
-		metaDir = e.proj
+		metaDir, metaArg = e.proj, e.proj
+		if c.Arg%3 == 0 {
+			// named relative to the project directory; a directory of the same name exists deeper in the tree
+			metaDir, metaArg = filepath.Join(e.proj, "meta"), "meta"
+			_ = os.MkdirAll(metaDir, 0o755)
+			_ = os.MkdirAll(filepath.Join(e.proj, "src", "meta"), 0o755)
+			_ = os.WriteFile(filepath.Join(e.proj, "src", "meta", "info.txt"), []byte("not metadata\n"), 0o644)
+		}
 	}
 	emit := filepath.Join(hx.BinDir(), "emit")
 	_ = os.WriteFile(filepath.Join(e.proj, "README"), []byte("initial source\n"), 0o644)
@@ -246,7 +253,7 @@ func c20Run(c c20Case, r *hx.Rec) error {
 		name := c20StepName(c, i)
 		k := hx.PoolKey(st.Key)
 		priv, _ := e.keyFiles(st.Key)
-		common := []string{"-n", name, "-k", priv, "-d", metaDir}
+		common := []string{"-n", name, "-k", priv, "-d", metaArg}
 		pathArg := "."
 		if st.Strip {
 			pathArg = e.proj
